@@ -584,8 +584,16 @@ def rule_d(model, rep, pairs, lib_pairs):
                           "libpass records carry, under each name, the text of the group of that name",
                           witness=f"{fnq}(h).{k.arg} is not what the string says (e.g. an argon2i record reported as argon2id); as_str() renders another hash")
     fn = model.func("libpass.inspect.phc._phc", "inspect_phc")
-    t = qtext(fn)
-    rep.check("name: param.type(params[param.param.name]) for name, param in definition_info.parameters.items()" in t, RK, site("libpass.inspect.phc._phc", "inspect_phc") + " **params",
+    ok = False
+    for dc in [n for n in walk_no_nested(fn) if isinstance(n, ast.DictComp)]:
+        gen = dc.generators[0]
+        if ast.unparse(gen.iter) != "definition_info.parameters.items()" or ast.unparse(gen.target) != "(name, param)" or ast.unparse(dc.key) != "name":
+            continue
+        v = dc.value   # param.type(<text>) directly or through a converting helper taking (type, text)
+        if isinstance(v, ast.Call):
+            parts = [ast.unparse(v.func)] + [ast.unparse(a) for a in v.args]
+            ok = "param.type" in parts and "params[param.param.name]" in parts and len(parts) <= 3
+    rep.check(ok, RK, site("libpass.inspect.phc._phc", "inspect_phc") + " **params",
               "parsed_params[name] = type(params[declared short name])", "PHC parameters are looked up by the short name their definition declares")
     fn = model.func("libpass.inspect.phc._phc", "PHC.as_str")
     rep.check("f'{value.param.name}={getattr(self, key)}' for key, value in _parse_phc_def(self.__class__).parameters.items()" in qtext(fn), RK, site("libpass.inspect.phc._phc", "PHC.as_str") + " params",
@@ -875,7 +883,7 @@ def rule_h(model, rep, table, pairs):
     ]
     for name, u, q, var, want, why in cases:
         fn = model.func(u, q)
-        got = _int_slices(fn, var)
+        got = list(dict.fromkeys(_int_slices(fn, var)))  # a validity test may read the same slice again before it is converted
         w = want()
         rep.check(got == w, R, site(u, q), f"{var} slices {got} vs {w} from declared sizes", f"{name}: {why}",
                   witness=f"{name}: salt and digest are split at the wrong character: from_string(h).to_string() == h but the reported salt is not the one used (or vice versa)")
@@ -919,9 +927,14 @@ def rule_h(model, rep, table, pairs):
     rep.check(want in qtext(rf), R, site(u, "scrypt.to_string"), "int6, int30, int30, salt, '$', digest", "$7$: renderer writes the same widths in the same order")
     kw2 = {}
     f2 = model.func(u, "scrypt._parse_scrypt_string")
+    def _num_src(v):
+        """text converted by int(...) / the strict uh.parse_int(...)"""
+        if isinstance(v, ast.Call) and ast.unparse(v.func) in ("int", "uh.parse_int", "parse_int") and v.args:
+            return ast.unparse(v.args[0])
+        return None
     for call in _cls_call(f2):
-        kw2 = {k.arg: ast.unparse(k.value) for k in call.keywords}
-    rep.check(kw2.get("rounds") == "int(nstr[3:])" and kw2.get("block_size") == "int(bstr[2:])" and kw2.get("parallelism") == "int(pstr[2:])" and has_stmt(f2, "nstr, bstr, pstr = parts"), R, site(u, "scrypt._parse_scrypt_string"),
+        kw2 = {k.arg: (_num_src(k.value) or ast.unparse(k.value)) for k in call.keywords}
+    rep.check(kw2.get("rounds") == "nstr[3:]" and kw2.get("block_size") == "bstr[2:]" and kw2.get("parallelism") == "pstr[2:]" and has_stmt(f2, "nstr, bstr, pstr = parts"), R, site(u, "scrypt._parse_scrypt_string"),
               str(kw2), "$scrypt$: ln, r, p in the order the renderer writes them")
     # concatenation order == slice order
     RO = "C07.h-concat-order"
